@@ -357,6 +357,18 @@ func init() {
 							before = after
 						}
 					}
+					// an upserting call that matches nothing returns the new document through the same projection
+					{
+						var got, plain bson.D
+						uerr := coll.FindOneAndUpdate(w.Ctx, bD("_id", "upserted"), bD("$set", bD("a", refmodel.GetPath(doc, "a"), "t", refmodel.GetPath(doc, "t"), "r", refmodel.GetPath(doc, "r"))),
+							options.FindOneAndUpdate().SetUpsert(true).SetReturnDocument(options.After).SetProjection(proj)).Decode(&got)
+						perr := coll.FindOne(w.Ctx, bD("_id", "upserted"), options.FindOne().SetProjection(proj)).Decode(&plain)
+						atomic.AddInt64(&writeProjections, 1)
+						if !numeric && (uerr != nil) != (perr != nil) || (uerr == nil && !numeric && J(canonSorted(got)) != J(canonSorted(plain))) {
+							r.Violation("write-projection-result:upsert-after:"+c14Shape(ents), fmt.Sprintf("FindOneAndUpdate(upsert, after) with projection %s returned %s (err %v); FindOne with the same projection returns %s (err %v) for the upserted document", J(proj), J(got), uerr, J(plain), perr), rp)
+						}
+						_, _ = coll.DeleteOne(w.Ctx, bD("_id", "upserted"))
+					}
 					if eerr == nil {
 						var seen []bson.D
 						if err := early.All(w.Ctx, &seen); err != nil || len(seen) != 1 || J(seen[0]) != J(doc) {
